@@ -14,7 +14,7 @@ from mc.model import universe as U
 from mc.bind import pyasn1_bind as B
 
 from pyasn1 import error as pyerr
-from pyasn1.type import univ, base as pybase
+from pyasn1.type import univ, constraint, base as pybase
 from pyasn1.codec.ber import encoder as ber_enc, decoder as ber_dec
 from pyasn1.codec.cer import encoder as cer_enc, decoder as cer_dec
 from pyasn1.codec.der import encoder as der_enc, decoder as der_dec
@@ -131,6 +131,9 @@ def routes(T, v):
         if dnames:
             rest = [n for n in names if n not in dnames]
             yield 'defaults-omitted', [('set', n, 'name') for n in rest]
+        # members handed over as value objects of a constrained subtype of the field's type (as when they are copied
+        # from a component of another structure): the same abstract value
+        yield 'narrowed-name', [('set', n, 'narrow') for n in names]
     elif k in ('SEQOF', 'SETOF'):
         idxs = list(range(len(v)))
         if k == 'SETOF' and len(v) <= 3:
@@ -194,7 +197,13 @@ def execute(T, v, spec, steps, reads_at=None):
             else:
                 i, f = fields[name]
                 val = B.build(f[1], v[name], B.field_spec(spec, i))
-                if by == 'name':
+                if by == 'narrow':
+                    if isinstance(val, univ.Integer):
+                        val = val.subtype(subtypeSpec=constraint.ValueRangeConstraint(int(val), int(val)))
+                    elif isinstance(val, univ.OctetString):
+                        val = val.subtype(subtypeSpec=constraint.ValueSizeConstraint(0, len(val) + 1))
+                    obj.setComponentByName(name, val)
+                elif by == 'name':
                     obj.setComponentByName(name, val)
                 else:
                     obj.setComponentByPosition(i, val)
